@@ -83,6 +83,23 @@ func propC18(a *Analysis, r *Registry) {
 			}
 			k := at.Args[0]
 			env.Set("k", k, nil)
+			if len(fc.loopPhis(k)) == 0 {
+				// no doubling loop: the capacity in closed form. 1 << bits.Len(m) is the least power
+				// of two above m (2^bitlen(m) > m for every m >= 0), so with m = i/32 it is >= i/32+1
+				closed := S.Ite(env.MustParse("1<idiv(i,32)+1"), S.MakeFn("shl", S.Int(1), S.MakeFn("math/bits.Len", env.MustParse("idiv(i,32)"))), S.Int(1))
+				if k.Equal(closed) || X.EquivByCases(k, closed, 0) {
+					r.OK("D-bound capacity", name+"/exit-implies-capacity", b.pos(fn), "capacity 1<<bits.Len(i/32) (1 when i/32 = 0): a power of two >= i/32+1")
+				} else {
+					r.Fail("D-bound capacity", name+"/exit-implies-capacity", b.pos(fn), "the new capacity "+clip(k.String(), 160)+" is neither doubled up to i/32+1 nor 1<<bits.Len(i/32): marks[i/32] can be out of range after grow")
+				}
+				cp := fc.CallsTo("builtin:copy")
+				if len(cp) == 1 && fc.Val(cp[0].Call.Args[0]).Equal(nm) && fc.Val(cp[0].Call.Args[1]).Equal(env.MustParse("m.marks")) {
+					r.OK("D-bound capacity", name+"/copies-old", a.W.InstrPos(cp[0]), "copy(new, m.marks) before installing")
+				} else {
+					r.Fail("D-bound capacity", name+"/copies-old", b.pos(fn), "old marks are not copied into the new slice")
+				}
+				return
+			}
 			ki, kn := fc.Recurrence(k)
 			b.Eq("D-bound capacity", name+"/k-init", b.pos(fn), ki, env, "1")
 			b.Eq("D-bound capacity", name+"/k-step", b.pos(fn), kn, env, "shl(k,1)")
@@ -129,48 +146,132 @@ func propC18(a *Analysis, r *Registry) {
 			env := X.EnvFor(fn, "m", "i")
 			env.Let("j", "ite(i+1<0, 0, i+1)")
 			env.Let("b0", "shr(m.marks[idiv(j,32)], imod(j,32))")
-			// decided by cases on the function's (gated) result, however the branches are nested:
-			// beyond the last word → -1; a bit left in the starting word → j+tz32(b0)
-			beyond := env.MustParse("len(m.marks)<=idiv(j,32)")
-			bit := env.MustParse("b0!=0")
-			fc1 := X.Under(fn, X.AssumeCond(beyond, true))
-			b.EqUnder(rB, name+"/returns -1", b.pos(fn), fc1, fc1.RetVal(0), env, "-1")
-			fc2 := X.Under(fn, X.AssumeCond(beyond, false), X.AssumeCond(bit, true))
-			b.EqUnder(rB, name+"/returns j+tz32(b0)", b.pos(fn), fc2, fc2.RetVal(0), env, "j+tz32(b0)")
-			// otherwise the remaining words are searched for the first non-zero one: in Next
-			// itself, or in a helper whose result Next returns
-			fc3 := X.Under(fn, X.AssumeCond(beyond, false), X.AssumeCond(bit, false))
-			found := false
-			for _, sfc := range fc3.BoundCallees(1) {
-				loops := sfc.Ctx.Loops()
-				if len(loops) != 1 {
-					continue
+			separate := func() {
+				// decided by cases on the function's (gated) result, however the branches are nested:
+				// beyond the last word → -1; a bit left in the starting word → j+tz32(b0)
+				beyond := env.MustParse("len(m.marks)<=idiv(j,32)")
+				bit := env.MustParse("b0!=0")
+				fc1 := X.Under(fn, X.AssumeCond(beyond, true))
+				b.EqUnder(rB, name+"/returns -1", b.pos(fn), fc1, fc1.RetVal(0), env, "-1")
+				fc2 := X.Under(fn, X.AssumeCond(beyond, false), X.AssumeCond(bit, true))
+				b.EqUnder(rB, name+"/returns j+tz32(b0)", b.pos(fn), fc2, fc2.RetVal(0), env, "j+tz32(b0)")
+				// otherwise the remaining words are searched for the first non-zero one: in Next
+				// itself, or in a helper whose result Next returns
+				fc3 := X.Under(fn, X.AssumeCond(beyond, false), X.AssumeCond(bit, false))
+				found := false
+				for _, sfc := range fc3.BoundCallees(1) {
+					loops := sfc.Ctx.Loops()
+					if len(loops) != 1 {
+						continue
+					}
+					found = true
+					marks := env.MustParse("m.marks")
+					b.FirstHitScan(rB, name+"/word-scan", b.pos(sfc.Fn), sfc, loops[0].Header, FirstHit{
+						Base:  marks,
+						First: sfc.Sub(env.MustParse("idiv(j,32)+1")),
+						N:     S.MakeFn("len", marks),
+						Hit:   func(e *RF) *RF { return S.Cmp("!=", S.MakeFn("idx", marks, e), S.Int(0)) },
+						Val: func(e *RF) *RF {
+							return S.Int(32).Mul(e).Add(S.MakeFn("math/bits.TrailingZeros32", S.MakeFn("idx", marks, e)))
+						},
+						Miss: S.Int(-1),
+					})
+					// every result in this case comes out of that search
+					if sfc == fc3 {
+						for _, rt := range fc3.Ctx.Returns() {
+							if !fc3.Ctx.Dominates(loops[0].Header, rt.Block()) {
+								r.Fail(rB, name+"/word-scan", a.W.InstrPos(rt), "a result for the remaining words that does not come from the word search")
+							}
+						}
+					}
+					break
 				}
-				found = true
+				if !found {
+					r.Fail(rB, name+"/word-scan", b.pos(fn), "no search loop over the remaining words")
+				}
+			}
+			// the starting word handled as the first iteration of the scan itself: a shift that is
+			// i%32 for the first word and 0 afterwards. Decided as the same three cases: the first
+			// iteration (every loop-carried quantity at its start) gives the "beyond" and "bit in the
+			// starting word" cases, the iterations after it are the plain search from j/32+1
+			merged := func() {
+				fc := X.FCFor(fn)
+				loops := fc.Ctx.Loops()
+				if len(loops) != 1 {
+					r.Fail(rB, name+"/word-scan", b.pos(fn), "no single scan loop")
+					return
+				}
+				hdr := loops[0].Header
 				marks := env.MustParse("m.marks")
-				b.FirstHitScan(rB, name+"/word-scan", b.pos(sfc.Fn), sfc, loops[0].Header, FirstHit{
+				beyond := env.MustParse("len(m.marks)<=idiv(j,32)")
+				bit := env.MustParse("b0!=0")
+				first := map[AtomID]*RF{}
+				aux := map[AtomID]*RF{}
+				for _, in := range hdr.Instrs {
+					ph, ok := in.(*ssa.Phi)
+					if !ok {
+						break
+					}
+					q := fc.Val(ph)
+					qa := q.SingleAtom()
+					if qa == nil || X.phiOf[qa.ID] != ph {
+						continue
+					}
+					qi, qn := recurrenceOrNil(fc, q)
+					if qi == nil {
+						r.Fail(rB, name+"/word-scan", b.pos(fn), "a loop-carried value without a recurrence")
+						return
+					}
+					first[qa.ID] = qi
+					if len(fc.loopPhis(qn)) == 0 && !hasAtomPrefix(qn, "memphi") {
+						aux[qa.ID] = qn // the same value in every iteration after the first
+					}
+				}
+				euclid := func(v *RF) *RF {
+					return v.Rewrite(func(at *Atom, args []*RF) *RF {
+						if at.Name == "imod" && len(args) == 2 {
+							return args[0].Sub(args[1].Mul(S.MakeFn("idiv", args[0], args[1])))
+						}
+						return nil
+					})
+				}
+				// the first iteration
+				miss, hit := S.False(), S.False()
+				for _, ee := range fc.ExitEdges(hdr) {
+					v := fc.gatedReturns(ee.To, 0, nil)
+					if v == nil {
+						r.Undecided(rB, name+"/first-word", b.pos(fn), "the value returned after leaving the loop is not computable")
+						return
+					}
+					if S.isBottom(v) {
+						continue
+					}
+					v = fc.resolveExitPhis(loops[0], ee.To, fc.resolveAlongEdge(ee.From, ee.To, v))
+					c1, v1 := ee.Cond.Subst(first), v.Subst(first)
+					if v1.Equal(S.Int(-1)) {
+						miss = S.Or(miss, c1)
+					} else {
+						hit = S.Or(hit, c1)
+						b.EqRF(rB, name+"/returns j+tz32(b0)", b.pos(fn), euclid(v1), euclid(env.MustParse("j+tz32(b0)")), "a bit left in the starting word gives j + tz32(b0)")
+					}
+				}
+				b.Eq(rB, name+"/returns -1", b.pos(fn), miss, env, "len(m.marks)<=idiv(j,32)")
+				b.EqRF(rB, name+"/first-word/when", b.pos(fn), hit, S.And(S.Not(beyond), bit), "the starting word answers exactly when it is in range and has a bit at or above j%32")
+				// the iterations after the first
+				b.FirstHitScan(rB, name+"/word-scan", b.pos(fn), fc, hdr, FirstHit{
 					Base:  marks,
-					First: sfc.Sub(env.MustParse("idiv(j,32)+1")),
+					First: env.MustParse("idiv(j,32)+1"),
 					N:     S.MakeFn("len", marks),
 					Hit:   func(e *RF) *RF { return S.Cmp("!=", S.MakeFn("idx", marks, e), S.Int(0)) },
 					Val: func(e *RF) *RF {
 						return S.Int(32).Mul(e).Add(S.MakeFn("math/bits.TrailingZeros32", S.MakeFn("idx", marks, e)))
 					},
-					Miss: S.Int(-1),
+					Miss:   S.Int(-1),
+					Peeled: true,
+					Aux:    aux,
 				})
-				// every result in this case comes out of that search
-				if sfc == fc3 {
-					for _, rt := range fc3.Ctx.Returns() {
-						if !fc3.Ctx.Dominates(loops[0].Header, rt.Block()) {
-							r.Fail(rB, name+"/word-scan", a.W.InstrPos(rt), "a result for the remaining words that does not come from the word search")
-						}
-					}
-				}
-				break
 			}
-			if !found {
-				r.Fail(rB, name+"/word-scan", b.pos(fn), "no search loop over the remaining words")
-			}
+			b.AnyOf(separate, merged)
 		})
 	}
 	b.CheckDFloor("D-floor", "graph/graphalg.(NodeMarks).Test", "graph/graphalg.(*NodeMarks).Mark", "graph/graphalg.(*NodeMarks).Unmark", "graph/graphalg.(*NodeMarks).grow", "graph/graphalg.(NodeMarks).Next")
